@@ -13,11 +13,15 @@ EXC_CLASSES = [RuntimeError, ValueError, KeyError, ConnectionResetError, BrokenP
 _exc_counter = [0]
 
 
-def scripted_exc(msg='scripted', salt=0):
+def scripted_exc(msg='scripted', salt=0, empty=None):
     """application code fails with exceptions of many families (connection errors of a downstream call included): containment must not
     depend on the class. The class is a function of the scenario so far (reset per EngineRun), so a replay raises the same ones."""
     _exc_counter[0] += 1
-    return EXC_CLASSES[(_exc_counter[0] * 4 + salt) % len(EXC_CLASSES)](msg)
+    cls = EXC_CLASSES[(_exc_counter[0] * 4 + salt) % len(EXC_CLASSES)]
+    if empty or (empty is None and (_exc_counter[0] + salt) % 3 == 0):
+        # an exception without a message (a bare assert, `raise PermissionError()`, the TimeoutError of asyncio.wait_for): str(e) == ''
+        return AssertionError() if cls is RuntimeError else cls()
+    return cls(msg)
 
 
 def tags_to_bytes(tags):
@@ -221,8 +225,12 @@ def make_handler_class():
 
         async def on_setup(self, data_encoding, metadata_encoding, payload):
             self.H.out('HC:SETUP:%s' % tstr(bytes_to_tags(payload.data)))
+            if 'raw' not in (self.H.recv_specs.get(self.H.current_k) or {}) and (bytes(data_encoding), bytes(metadata_encoding)) != (b'c/d', b'a/b'):
+                # build_frame() always announces data 'c/d' and metadata 'a/b': anything else reached the handler altered (an extra token the model never has)
+                self.H.out('HC:SETUP-ENCODINGS:%r:%r' % (bytes(data_encoding), bytes(metadata_encoding)))
             if self._beh() == 'x':
-                raise scripted_exc('scripted: on_setup raises')
+                tags = bytes_to_tags(payload.data)
+                raise scripted_exc('scripted: on_setup raises', empty=bool(tags) and tags[0] % 3 == 0)
 
         async def on_metadata_push(self, metadata):
             self.H.out('HC:METADATA_PUSH:%s' % tstr(bytes_to_tags(metadata.metadata)))
